@@ -12,7 +12,7 @@ from .loader import dotted
 TOP = None  # unknown order
 
 
-def merge_order(deps: Deps, e: ast.AST, depth: int = 6) -> list[str] | None:
+def merge_order(deps: Deps, e: ast.AST, depth: int = 6, _stack: frozenset = frozenset()) -> list[str] | None:
     """Ordered provenance tags of an expression that builds a sequence/mapping from several sources.
     Later sources win for mappings.  Returns None (TOP) for unrecognised shapes."""
     e = unwrap(e)
@@ -22,7 +22,7 @@ def merge_order(deps: Deps, e: ast.AST, depth: int = 6) -> list[str] | None:
         out: list[str] = []
         for el in e.elts:
             if isinstance(el, ast.Starred):
-                sub = merge_order(deps, el.value, depth - 1)
+                sub = merge_order(deps, el.value, depth - 1, _stack)
                 if sub is TOP:
                     return TOP
                 out.extend(sub)
@@ -33,7 +33,7 @@ def merge_order(deps: Deps, e: ast.AST, depth: int = 6) -> list[str] | None:
         out = []
         for k, v in zip(e.keys, e.values):
             if k is None:
-                sub = merge_order(deps, v, depth - 1)
+                sub = merge_order(deps, v, depth - 1, _stack)
                 if sub is TOP:
                     return TOP
                 out.extend(sub)
@@ -41,7 +41,7 @@ def merge_order(deps: Deps, e: ast.AST, depth: int = 6) -> list[str] | None:
                 out.append("item:" + ",".join(sorted(deps.origins(v))))
         return out
     if isinstance(e, ast.BinOp) and isinstance(e.op, (ast.BitOr, ast.Add)):
-        a, b = merge_order(deps, e.left, depth - 1), merge_order(deps, e.right, depth - 1)
+        a, b = merge_order(deps, e.left, depth - 1, _stack), merge_order(deps, e.right, depth - 1, _stack)
         return TOP if a is TOP or b is TOP else a + b
     if isinstance(e, ast.Await):
         return ["await:" + ",".join(sorted(deps.origins(e.value)))]
@@ -83,9 +83,38 @@ def merge_order(deps: Deps, e: ast.AST, depth: int = 6) -> list[str] | None:
             return TOP
         return merge_order(deps, e.generators[0].iter, depth - 1)
     if isinstance(e, ast.Name):
+        owner = deps.owner(e.id)
         v = deps.single_value(e.id)
         if v is not None:
-            return merge_order(deps, v, depth - 1)
+            base = merge_order(deps, v, depth - 1)
+            if base is TOP or owner is None:
+                return base
+            extra: list[str] = []
+            for n in owner.own_nodes():
+                add = None
+                if isinstance(n, ast.Call) and isinstance(n.func, ast.Attribute) and is_name(n.func.value, e.id) and n.func.attr in ("update", "extend") and len(n.args) == 1:
+                    add = n.args[0]
+                elif isinstance(n, ast.AugAssign) and is_name(n.target, e.id) and isinstance(n.op, (ast.BitOr, ast.Add)):
+                    add = n.value
+                if add is not None:
+                    sub = merge_order(deps, add, depth - 1)
+                    if sub is TOP:
+                        return TOP
+                    extra += sub
+            return list(base) + extra
+        if owner is not None:
+            vc = loop_as_comp(owner, e.id)
+            if vc is not None:
+                return merge_order(deps, vc.iter, depth - 1, _stack)
+            from .loader import parent as _parent
+
+            defs = [n for k, n in deps.defs(owner, e.id) if k == "value" and not getattr(_parent(n), "_inline_init", False) and id(n) not in _stack]
+            kinds = {k for k, _ in deps.defs(owner, e.id)}
+            if defs and kinds == {"value"}:
+                orders = [merge_order(deps, n, depth - 1, _stack | {id(n)}) for n in defs]
+                if all(o is not TOP for o in orders) and all(o == orders[0] for o in orders):
+                    return orders[0]
+                return TOP
         oo = deps.origins(e)
         if len(oo) == 1:
             return [next(iter(oo))]
@@ -196,3 +225,94 @@ def applies_to(call: ast.AST | None, func_pred, arg_name: str) -> bool:
         and is_name(call.args[0], arg_name)
         and func_pred(call.func)
     )
+
+
+class VirtualComp(CompShape):
+    """An accumulation loop presented as the comprehension it is equivalent to:
+        acc = [] / {} / set()          (or dict() / list())
+        for <target> in <iter>:        (optionally `if <cond>:` around the single store)
+            acc.append(<elt>) | acc.add(<elt>) | acc[<key>] = <value> | acc.extend(<elt>)   (extend -> flatten=True)
+    """
+
+    def __init__(self, loop: ast.For, init: ast.AST, store: ast.AST, filtered: bool, filter_expr: ast.AST | None = None) -> None:
+        self.filter_expr = filter_expr
+        self.comp = loop
+        self.ok = True
+        self.iter = loop.iter
+        self.target = loop.target
+        self.filtered = filtered
+        self.is_async = isinstance(loop, ast.AsyncFor)
+        self.flatten = False
+        self.is_dict = False
+        self.elt = self.key = self.value = None
+        if isinstance(store, ast.Assign):
+            self.is_dict = True
+            self.key = store.targets[0].slice
+            self.value = store.value
+        else:
+            call = store.value
+            self.elt = call.args[0]
+            self.flatten = call.func.attr in ("extend", "update")
+        self.init = init
+
+
+def loop_as_comp(fi, name: str) -> VirtualComp | None:
+    inits, loops, others = [], [], 0
+    for n in fi.own_nodes():
+        if isinstance(n, (ast.Assign, ast.AnnAssign)) and getattr(n, "value", None) is not None:
+            t = n.targets[0] if isinstance(n, ast.Assign) else n.target
+            if isinstance(t, ast.Name) and t.id == name:
+                inits.append(n)
+        if isinstance(n, (ast.For, ast.AsyncFor)) and not n.orelse:
+            body = n.body
+            filtered = False
+            fexpr = None
+            if len(body) == 1 and isinstance(body[0], ast.If) and not body[0].orelse and len(body[0].body) == 1:
+                filtered = True
+                fexpr = body[0].test
+                body = body[0].body
+            elif len(body) == 2 and isinstance(body[0], ast.If) and not body[0].orelse and len(body[0].body) == 1 and isinstance(body[0].body[0], ast.Continue):
+                filtered = True
+                fexpr = ast.UnaryOp(op=ast.Not(), operand=body[0].test)
+                body = body[1:]
+            if len(body) == 1:
+                st = body[0]
+                if isinstance(st, ast.Assign) and len(st.targets) == 1 and isinstance(st.targets[0], ast.Subscript) and is_name(st.targets[0].value, name):
+                    loops.append((n, st, filtered, fexpr))
+                elif isinstance(st, ast.Expr) and isinstance(st.value, ast.Call) and isinstance(st.value.func, ast.Attribute) and is_name(st.value.func.value, name) and st.value.func.attr in ("append", "add", "extend") and len(st.value.args) == 1:
+                    loops.append((n, st, filtered, fexpr))
+    if len(inits) != 1 or len(loops) != 1:
+        return None
+    v = unwrap(inits[0].value)
+    empty = (isinstance(v, (ast.List, ast.Dict, ast.Set)) and not getattr(v, "elts", getattr(v, "keys", []))) or (isinstance(v, ast.Call) and isinstance(v.func, ast.Name) and v.func.id in ("list", "dict", "set") and not v.args and not v.keywords)
+    if not empty:
+        return None
+    # no other writes to the accumulator
+    for n in fi.own_nodes():
+        if isinstance(n, ast.Call) and isinstance(n.func, ast.Attribute) and is_name(n.func.value, name) and n.func.attr in ("append", "add", "extend", "update", "pop", "clear", "insert", "remove", "setdefault"):
+            if n is not getattr(loops[0][1], "value", None):
+                return None
+        if isinstance(n, (ast.Assign, ast.AugAssign, ast.Delete)) and n is not loops[0][1] and n is not inits[0]:
+            tg = n.targets if isinstance(n, (ast.Assign, ast.Delete)) else [n.target]
+            if any((isinstance(t, ast.Subscript) and is_name(t.value, name)) or is_name(t, name) for t in tg):
+                return None
+    return VirtualComp(loops[0][0], inits[0], loops[0][1], loops[0][2], loops[0][3])
+
+
+def comp_of(deps: Deps, e: ast.AST | None) -> CompShape | None:
+    """The comprehension (real, or an equivalent accumulation loop) that produces `e`."""
+    e = unwrap(e)
+    if e is None:
+        return None
+    if isinstance(e, (ast.ListComp, ast.SetComp, ast.DictComp, ast.GeneratorExp)):
+        sh = CompShape(e)
+        return sh if sh.ok else None
+    if isinstance(e, ast.Name):
+        owner = deps.owner(e.id)
+        if owner is None:
+            return None
+        sv = deps.single_value(e.id)
+        if sv is not None and isinstance(unwrap(sv), (ast.ListComp, ast.SetComp, ast.DictComp, ast.GeneratorExp)):
+            return comp_of(deps, sv)
+        return loop_as_comp(owner, e.id)
+    return None
